@@ -39,6 +39,29 @@ func ruleQ1(c *Ctx, id string) {
 		R.Check(stripConv(recvOf(w)) == ssa.Value(op), id, fmt.Sprintf("kvs.MultiPut|write#%d on the one operation", i+1), P.Pos(w.Pos()), "every pair is written on the operation begun", "same op", "a pair is written on another operation")
 	}
 	R.Check(len(writes) >= 1, id, "kvs.MultiPut|writes", P.Pos(mp.Pos()), "pairs are written through OverWrite", "present", "no write")
+	// the write set is blind and complete: every iteration of the loop over the pairs writes its pair, and
+	// nothing is read from the journal to decide what to write (such a decision can be stale at commit time)
+	for i, w := range writes {
+		wb := w.Block()
+		every, nback := true, 0
+		for _, h := range mp.Blocks {
+			if !h.Dominates(wb) || h == wb {
+				continue
+			}
+			for _, p := range h.Preds {
+				if h.Dominates(p) && len(wb.Instrs) > 0 && (p == wb || reachableFrom(wb.Instrs[0], p.Instrs[len(p.Instrs)-1])) {
+					nback++
+				}
+				if h.Dominates(p) && !wb.Dominates(p) && p != wb {
+					// a back edge of an enclosing loop that does not pass the write
+					every = false
+				}
+			}
+		}
+		R.Check(every && nback > 0, id, fmt.Sprintf("kvs.MultiPut|write#%d on every iteration", i+1), P.Pos(w.Pos()), "every path through the loop body passes the OverWrite of the pair (out-of-range keys panic)", "the write dominates every back edge of the loop", "some pairs are skipped: the put installs only part of its pairs, or decides from a read that is stale when it commits")
+	}
+	reads := P.CallsIn(mp, funcIs(V.ReadBuf))
+	R.Check(len(reads) == 0, id, "kvs.MultiPut|blind writes", P.Pos(mp.Pos()), "MultiPut reads nothing through the journal: its effect does not depend on a state that another multi-put may change before the commit", "no ReadBuf", fmt.Sprintf("%d journal reads inside the multi-put: a read-check-write without a lock", len(reads)))
 	okC := len(commits) == 1
 	if okC {
 		cm := commits[0].(*ssa.Call)
